@@ -96,6 +96,7 @@ def run(P, rep, tier):
     r133(W, engs, rep)
     r133k(W, rep)
     r134(P, W, engs, rep)
+    r135(W, rep)
     r136(W, engs, rep)
     r137(P, rep)
 
@@ -664,8 +665,15 @@ def r134(P, W, engs, rep):
                     roots = [n for n in (cond.walk() if cond is not None else []) if n.kind == 'DeclRefExpr' and n.ref_kind == 'VarDecl' and n.ref_id not in cu.by_id]
                     good = bool(roots)
                     for r in roots:
-                        decl = [d for d in cu.fn(f).find('VarDecl') if d.id == r.ref_id]
-                        init = decl[0].inner[-1].strip() if decl and 'init' in decl[0].d and decl[0].inner else None
+                        init = None
+                        rid = r.ref_id
+                        for _ in range(4):     # follow plain copies `Type *ty = rty;`
+                            decl = [d for d in cu.fn(f).find('VarDecl') if d.id == rid]
+                            init = decl[0].inner[-1].strip() if decl and 'init' in decl[0].d and decl[0].inner else None
+                            if init is not None and init.kind == 'DeclRefExpr' and init.ref_kind == 'VarDecl' and init.ref_id not in cu.by_id:
+                                rid = init.ref_id
+                                continue
+                            break
                         if init is None or init.kind != 'MemberExpr':
                             good = False
                             continue
@@ -716,6 +724,74 @@ def r134(P, W, engs, rep):
 
 
 # --------------------------------------------------------------------------------------------
+def r135(W, rep):
+    """parse_args never reads argv past argc: an option that consumes the next argument is validated by the first loop"""
+    rep.rule('R13.5', 'every option whose handler consumes the following argument (argv[++i]) is listed in take_arg(), whose loop rejects a missing argument before '
+                      'any handler runs (otherwise `chibicc -X` as the last word hands NULL to the handler)', floor=8)
+    u = W.units['main.c']
+    ta, pa = u.functions.get('take_arg'), u.functions.get('parse_args')
+    if ta is None or pa is None:
+        raise AnalysisBroken('main.c: take_arg/parse_args vanished')
+    table = set()
+    for il in ta.find('InitListExpr'):
+        vals = [c.str_value() for c in il.inner]
+        if vals and all(v is not None for v in vals):
+            table |= set(vals)
+    if len(table) < 4:
+        rep.undecided('R13.5', 'main.c:take_arg:table', 'the option table of take_arg() is not recognised')
+        return
+    # the validating loop: a read argv[++i] under `if (take_arg(argv[i]))`
+    validated = False
+    for n in pa.walk():
+        if n.kind != 'ArraySubscriptExpr':
+            continue
+        idx = n.inner[1].strip()
+        base = n.inner[0].strip()
+        if not (idx.kind == 'UnaryOperator' and idx.opcode in ('++',) and base.kind == 'DeclRefExpr' and base.ref_kind == 'ParmVarDecl'):
+            continue
+        guards = []
+        p = n.parent
+        c = n
+        took = False
+        while p is not None and p is not pa:
+            if p.kind == 'IfStmt' and p.inner[0] is not c:
+                in_then = p.inner[1] is c
+                lits = []
+                for call in p.inner[0].calls(('strcmp',)):
+                    a = call.args()
+                    lit = a[1].str_value() if len(a) > 1 else None
+                    if lit is not None:
+                        lits.append(lit)
+                if p.inner[0].calls('take_arg'):
+                    took = True
+                if lits and in_then:
+                    guards = lits
+                    break
+                if took:
+                    break
+            c, p = p, p.parent
+        where = 'main.c:%d' % n.line
+        if took and not guards:
+            validated = True
+            chk = n.parent
+            while chk is not None and chk.kind in ('ImplicitCastExpr', 'ParenExpr'):
+                chk = chk.parent
+            ok = chk is not None and chk.kind == 'UnaryOperator' and chk.opcode == '!'
+            rep.ob('R13.5', 'main.c:parse_args:missing-argument-rejected', ok,
+                   'the validation loop does not test argv[++i] for NULL after take_arg(argv[i])', where=where)
+            continue
+        if not guards:
+            rep.undecided('R13.5', 'main.c:parse_args:argv[++i]', 'an argv[++i] read is not under a recognisable `!strcmp(argv[i], "-opt")` guard', where=where)
+            continue
+        for g in guards:
+            rep.ob('R13.5', 'main.c:parse_args:argv[++i]("%s")' % g, g in table,
+                   'the handler of `%s` consumes argv[++i] but `%s` is not in take_arg()\'s table, so a missing argument is not rejected: `chibicc %s` as the last word '
+                   'passes argv[argc] == NULL on (strdup/strlen/strcmp of NULL -> SIGSEGV, or silently ignored)' % (g, g, g), where=where)
+    if not validated:
+        rep.undecided('R13.5', 'main.c:parse_args:validation-loop', 'no `if (take_arg(argv[i])) if (!argv[++i]) usage` validation found')
+
+
+# --------------------------------------------------------------------------------------------
 def r136(W, engs, rep):
     """every error_tok/warn_tok call: the token argument is not a value that may be NULL"""
     obs = {}
@@ -737,6 +813,61 @@ def r136(W, engs, rep):
                 obs[key] = (not bad, what, '%s:%d' % (un, node.line))
     for key, (ok, what, where) in sorted(obs.items()):
         rep.ob('R13.6', key, ok, what, where=where)
+    # the printing side: "<file>:<line>: " from the reported position, then exit non-zero
+    tu = W.units['tokenize.c']
+    va = tu.functions.get('verror_at')
+    if va is None:
+        rep.undecided('R13.6', 'tokenize.c:verror_at', 'the diagnostic printer verror_at() vanished')
+        return
+    vparams = [c for c in va.inner if c.kind == 'ParmVarDecl']
+    ok = False
+    fi = li = None
+    for c in va.calls(('fprintf', 'printf', 'dprintf')):
+        a = c.args()
+        k = 0 if c.callee() == 'printf' else 1
+        fmt = a[k].str_value() if len(a) > k else None
+        if fmt and '%s:%d' in fmt and len(a) >= k + 3:
+            x, y = a[k + 1].strip(), a[k + 2].strip()
+            if x.kind == 'DeclRefExpr' and y.kind == 'DeclRefExpr' and x.ref_kind == 'ParmVarDecl' and y.ref_kind == 'ParmVarDecl':
+                ids = [p.id for p in vparams]
+                if x.ref_id in ids and y.ref_id in ids and 'char' in (x.type or '') and (y.type or '') == 'int':
+                    fi, li = ids.index(x.ref_id), ids.index(y.ref_id)
+                    ok = c.callee() != 'printf' and a[0].src() == 'stderr'
+    rep.ob('R13.6', 'tokenize.c:verror_at:prints-file:line', ok,
+           'verror_at() no longer prints "<file name>:<line number>: " (format "%s:%d" fed from its file-name and line parameters) to stderr: diagnostics do not name a file and a line',
+           where='tokenize.c:%d' % va.line)
+    if fi is None:
+        return
+    for f in ('error_tok', 'warn_tok', 'error_at'):
+        fd = tu.functions.get(f)
+        if fd is None:
+            rep.undecided('R13.6', 'tokenize.c:%s' % f, '%s() vanished' % f)
+            continue
+        calls = fd.calls('verror_at')
+        ps = [c for c in fd.inner if c.kind == 'ParmVarDecl']
+        good = len(calls) == 1
+        if good:
+            a = calls[0].args()
+            if f == 'error_at':
+                good = a[fi].src() == 'current_file->name' and any(n.kind == 'DeclRefExpr' and n.ref_id == ps[0].id for n in a[3].walk())
+                what = 'error_at() does not report current_file->name with the position it was given'
+            else:
+                t = ps[0].name
+                good = a[fi].src() == '%s->file->name' % t and a[li].src() == '%s->line_no' % t and a[3].src() == '%s->loc' % t
+                what = '%s() does not pass its own token\'s file name, line number and position to verror_at()' % f
+        else:
+            what = '%s() does not call verror_at() exactly once' % f
+        rep.ob('R13.6', 'tokenize.c:%s:location-of-its-argument' % f, good, what, where='tokenize.c:%d' % fd.line)
+    for f in ('error', 'error_at', 'error_tok'):
+        fd = tu.functions.get(f)
+        if fd is None:
+            continue
+        body = tu.body(f)
+        last = body.inner[-1] if body is not None and body.inner else None
+        good = last is not None and last.kind == 'CallExpr' and last.callee() in ('exit', '_exit') and last.args() and (last.args()[0].int_value() or 0) != 0 \
+            and not fd.find('ReturnStmt')
+        rep.ob('R13.6', 'tokenize.c:%s:exits-nonzero' % f, good,
+               '%s() does not end in exit(<non-zero constant>): after the diagnostic the compiler would continue or exit 0' % f, where='tokenize.c:%d' % fd.line)
 
 
 # --------------------------------------------------------------------------------------------
